@@ -190,6 +190,7 @@ func (h *HarnessRun) violation(ex *Exec, label, msg string) {
 }
 
 func (h *HarnessRun) recordViolation(ex *Exec, label, msg string, extra *Term) {
+	ex.violated = true
 	v := &Violation{Harness: h.spec.Name, Pkg: h.spec.Pkg, Label: label, Msg: msg, Pos: ex.posStr(), Trace: append([]string{}, ex.trace...), Decisions: append([]int{}, ex.dec...)}
 	key := label + "|" + msg + "|" + v.Pos
 	// violations are de-duplicated per known-finding class, so that a violation of the same
@@ -346,6 +347,24 @@ func (h *HarnessRun) runPath(fn *ssa.Function, prefix []int, sol *Solver) (alts 
 		ex.runFunc(fn, nil, nil, nil)
 		ex.W.finish(ex)
 	}()
+	// vacuity guard: assumptions added along the path (havoc under Inv, environment steps, capacity of the slot
+	// tables, vx.Assume) must leave it satisfiable, otherwise every obligation on it was discharged for nothing
+	if (status == "ok" || status == "gopanic" || status == "blocked") && !ex.violated {
+		func() {
+			defer func() {
+				if r := recover(); r != nil {
+					if _, ok := r.(*pathEnd); !ok {
+						panic(r)
+					}
+				}
+			}()
+			sol.what = "path-feasible"
+			if ex.sat(tt.Bool(true)) == "unsat" {
+				pe = &pathEnd{kind: "unsupported", msg: "vacuous path: the assumptions made along it are contradictory (" + strings.Join(ex.trace, ",") + ")", pos: ex.posStr()}
+				status = "unsupported"
+			}
+		}()
+	}
 	h.mu.Lock()
 	h.paths++
 	for f := range ex.W.funcs {
